@@ -198,3 +198,40 @@ Example mul_ex :        (* f = x + 1, g = x - 2, f g = x^2 - x - 2: 9 = 1 * 1 * 
   discriminant Checked f = (true, Done 1%Z) /\ discriminant Checked g = (true, Done 1%Z) /\
   discriminant Checked fg = (true, Done 9%Z) /\ Resultant.resultant Checked f g = (true, Done (-3)%Z).
 Proof. split; first exact: SubresProd.mul_ex_poly. by repeat split; vm_compute. Qed.
+
+(** ** Fifth wave: the closed form "lc(f)^(2n-2) times the product of squared root differences" (W5DiscRoots.v) *)
+From mathcomp Require Import algC.
+From RNT.Refine Require Import W5DiscRoots.
+
+(** [P] [discriminant_root_differences]: for every canonical f of degree n >= 1, in either mode, the run returns d,
+    and for EVERY list r_1..r_k of algebraic numbers with f = lc(f) * prod (x - r_i) over the algebraic numbers
+    (MathComp [algC]; the roots of f counted with multiplicity; [ZtoC] is the embedding of Z): k = n and
+       d = lc(f)^(2n-2) * prod_{i<j} (r_i - r_j)^2      (1 for degree 1).
+    From [discriminant_spec], the product formula [resultant_roots] and f'(r_i) = lc prod_{j<>i} (r_i - r_j). *)
+Theorem discriminant_root_differences : forall m (f : seq Z),
+  canonb f = true -> len_ok f = true -> (1 < size f)%N ->
+  exists d, discriminant m f = (true, Done d) /\
+    forall rs : seq algC,
+      map_poly ZtoC (Poly f) = ZtoC (lead_coef (Poly f)) *: \prod_(z <- rs) ('X - z%:P) ->
+      size rs = (size f).-1 /\
+      ZtoC d = ZtoC (lead_coef (Poly f)) ^+ (2 * size rs - 2)
+               * \prod_(i < size rs) \prod_(j < size rs | (i < j)%N) (rs`_i - rs`_j) ^+ 2.
+Proof. exact W5DiscRoots.discriminant_root_differences. Qed.
+
+(** [P] such a list of roots exists (algC is algebraically closed, [closed_field_poly_normal]) *)
+Theorem discriminant_root_differences_ex : forall m (f : seq Z),
+  canonb f = true -> len_ok f = true -> (1 < size f)%N ->
+  exists d (rs : seq algC),
+    [/\ discriminant m f = (true, Done d),
+        map_poly ZtoC (Poly f) = ZtoC (lead_coef (Poly f)) *: \prod_(z <- rs) ('X - z%:P),
+        size rs = (size f).-1
+      & ZtoC d = ZtoC (lead_coef (Poly f)) ^+ (2 * size rs - 2)
+                 * \prod_(i < size rs) \prod_(j < size rs | (i < j)%N) (rs`_i - rs`_j) ^+ 2].
+Proof. exact W5DiscRoots.discriminant_root_differences_ex. Qed.
+
+(** non-vacuity: f = x^2 - 3x + 2 = (x - 1)(x - 2): discriminant 1 = 1^2 * (1 - 2)^2 *)
+Example roots_ex :
+  let f := [:: 2; -3; 1]%Z in
+  map_poly ZtoC (Poly f) = ZtoC (lead_coef (Poly f)) *: \prod_(z <- [:: 1; 2%:R]) ('X - z%:P) /\
+  canonb f = true /\ len_ok f = true /\ discriminant Checked f = (true, Done 1%Z).
+Proof. split; first exact: W5DiscRoots.roots_ex_poly. by repeat split; vm_compute. Qed.
